@@ -48,7 +48,7 @@ func c05Run(ops string) string {
 	defer pconn.Close()
 	srv := httptest.NewServer(&httpHandler{pconn: pconn})
 	defer srv.Close()
-	url := "ws" + strings.TrimPrefix(srv.URL, "http") + "/?client_ip=192.0.2.5"
+	base := "ws" + strings.TrimPrefix(srv.URL, "http") + "/"
 	var carriers []*c05carrier
 	var upMu sync.Mutex
 	var up []string
@@ -130,7 +130,12 @@ func c05Run(ops string) string {
 		op := parts[0]
 		exps := parts[1:]
 		switch {
-		case op == "n":
+		case op == "n" || strings.HasPrefix(op, "n:"):
+			// "n:x<hex>" gives the raw query string of this carrier's URL (any client_ip value, also malformed ones)
+			url := base + "?client_ip=192.0.2.5"
+			if strings.HasPrefix(op, "n:") {
+				url = base + "?" + string(c05hex(op[2:]))
+			}
 			ws, _, err := websocket.DefaultDialer.Dial(url, nil)
 			if err != nil {
 				return "!dial:" + err.Error()
